@@ -33,3 +33,17 @@ Print Assumptions C17_frequencies_keys.
 Theorem C17_metacomments_key : forall d k c, In c (get_metacomments d (Some k) false) -> startswith ("!!!" ++ k) c = true.
 Proof. exact metacomments_key. Qed.
 Print Assumptions C17_metacomments_key.
+
+(* the listing visits EVERY node of an imported document EXACTLY ONCE, in pre-order: the explicit-stack traversal of
+   Node.dfs_iterative equals the structural pre-order (a node, then the sub-trees of its children left to right), which
+   is a duplicate-free enumeration of all node ids *)
+From Coq Require Import Permutation.
+From KV Require Import DfsProofs.
+Import ListNotations.
+Theorem C17_listing_is_preorder_each_node_once : forall bad text d, loads bad text = IOk d ->
+  dfs_order d = pre (List.length (d_nodes d)) d 0 /\
+  Permutation (dfs_order d) (seq 0 (List.length (d_nodes d))) /\ NoDup (dfs_order d) /\
+  (forall i, i < List.length (d_nodes d) ->
+     pre (List.length (d_nodes d)) d i = i :: flat_map (pre (List.length (d_nodes d)) d) (n_children (get_node d i))).
+Proof. exact listing_is_preorder. Qed.
+Print Assumptions C17_listing_is_preorder_each_node_once.
